@@ -103,6 +103,13 @@ def literal_condition_progs(lits):
             out.append('return %s ? "t" : "e"\n' % e)
             out.append('return [!%s, %s && "x", %s || "x"]\n' % (e, e, e))
             out.append('x := 0\nfor %s { x++; if x > 2 { break } }\nreturn x\n' % e)
+            # the statement forms with an init part (assignment, definition read by the else branch, call with an effect),
+            # also as else-if and inside a function; the loop form with init and post
+            out.append('r := 0\nif r = 7; %s { return ["t", r] }\nreturn ["e", r]\n' % e)
+            out.append('if v := 3; %s { return ["t", v] } else { return ["e", v] }\n' % e)
+            out.append('n := 0\nf := func() { n++; return n }\nif f(); %s { n += 10 } else if f(); %s { n += 100 } else { n += 1000 }\nreturn n\n' % (e, e))
+            out.append('g := func(p) { if q := p * 2; %s { return q } else if w := q + 1; %s { return w } else { return [q, w] } }\nreturn g(5)\n' % (e, e))
+            out.append('x := 0\nfor i := 5; %s; i++ { x += i; if x > 20 { break } }\nreturn x\n' % e)
     return out
 
 def run(rep, br, proofs, rng, tier):
